@@ -128,6 +128,10 @@ ostep!(o_mul2, Cfg { kind: 2, h: 2, d: 5, depth: [0, 0, 0, 2, 0, 1], ..CFG0 });
 ostep!(o_neg1, Cfg { kind: 3, h: 1, d: 4, depth: [0, 0, 0, 2, 0, 0], ..CFG0 });
 // @h prop=C02 unwind=10 rec=2 cutfmt=1 uw=same_output.0:25;exit_model.0:25;exit.0:25;push.0:17;write.0:17 timeout=3600 mem=12 what=흣_2_operands:restored_in_original_order
 ostep!(o_neg2, Cfg { kind: 3, h: 2, d: 4, depth: [0, 0, 0, 2, 0, 0], ..CFG0 });
+// @h prop=C02 unwind=10 rec=2 cutfmt=1 uw=same_output.0:25;exit_model.0:25;exit.0:25;push.0:17;write.0:17 timeout=2700 mem=12 tier=thorough kind=stretch what=흣_2_operands,target_stack_=_selected_stack:sum_lands_on_top_of_the_restored_operands(quick_probe:out_of_memory_at_12_GB_after_118_s)
+ostep!(o_neg2_same, Cfg { kind: 3, h: 2, d: 3, depth: [0, 0, 0, 2, 0, 0], ..CFG0 });
+// @h prop=C02 unwind=10 rec=2 cutfmt=1 uw=same_output.0:25;exit_model.0:25;exit.0:25;push.0:17;write.0:17 timeout=2700 tier=thorough kind=stretch what=흡_2_operands,target_stack_=_selected_stack
+ostep!(o_inv2_same, Cfg { kind: 4, h: 2, d: 3, dom: Dom::Frac, depth: [0, 0, 0, 2, 0, 0], ..CFG0 });
 // @h prop=C02 unwind=10 rec=2 cutfmt=1 uw=same_output.0:25;exit_model.0:25;exit.0:25;push.0:17;write.0:17 timeout=2700 tier=thorough kind=stretch what=흣_3_operands
 ostep!(o_neg3, Cfg { kind: 3, h: 3, d: 4, depth: [0, 0, 0, 3, 0, 0], ..CFG0 });
 // @h prop=C02 unwind=10 rec=2 cutfmt=1 uw=same_output.0:25;exit_model.0:25;exit.0:25;push.0:17;write.0:17 timeout=2700 what=흡_2_operands:restored_in_original_order
